@@ -77,7 +77,8 @@ class Affine:
     # ---------------------------------------------------------------- helpers
     def _newtype(self, adt_path):
         a = self.prog.adts.get(adt_path)
-        return bool(a and a.get("kind") == "struct" and len(a["variants"]) == 1 and len(a["variants"][0]["fields"]) == 1)
+        return bool(a and a.get("kind") == "struct" and len(a["variants"]) == 1 and len(a["variants"][0]["fields"]) == 1
+                    and a["variants"][0]["fields"][0]["n"] == "0")
 
     def _int(self, o):
         v = o.get("v")
